@@ -51,13 +51,23 @@ type Recorder struct {
 	AliveFilter func(n *memberlist.Node) error
 	// BlockMsg, when set, makes NotifyMsg wait on it (to hold the packet handler).
 	BlockMsg chan struct{}
-	// HoldEvent, when set, makes the membership event about HoldName wait on it; the
+	// holdEvent (see Hold), when set, makes the membership event about holdName wait on it; the
 	// callback runs under the node lock, so this keeps the node lock held. Holding is
 	// set while a callback is parked there.
-	HoldEvent chan struct{}
-	HoldName  string
+	holdEvent chan struct{}
+	holdName  string
 	Holding   atomic.Int32
 }
+
+// Hold makes the next membership event about name park (under the node lock) until ch is closed.
+func (r *Recorder) Hold(name string, ch chan struct{}) {
+	r.mu.Lock()
+	r.holdName, r.holdEvent = name, ch
+	r.mu.Unlock()
+}
+
+// Unhold disarms Hold (a callback that is already parked keeps waiting for its channel).
+func (r *Recorder) Unhold() { r.Hold("", nil) }
 
 func NewRecorder() *Recorder { return &Recorder{start: time.Now()} }
 
@@ -104,9 +114,12 @@ func (r *Recorder) event(kind string, n *memberlist.Node) {
 	}
 	// widen the window for an unserialized concurrent callback
 	runtime.Gosched()
-	if r.HoldEvent != nil && n.Name == r.HoldName {
+	r.mu.Lock()
+	h, hn := r.holdEvent, r.holdName
+	r.mu.Unlock()
+	if h != nil && n.Name == hn {
 		r.Holding.Store(1)
-		<-r.HoldEvent
+		<-h
 		r.Holding.Store(0)
 	}
 	r.add(nodeEv(kind, n))
